@@ -9,10 +9,10 @@ LP = "lazy-program exhaustive exploration of the real crate + spec monitor"
 CHECKS = {
  "C01": ("cobweb-mc", "model_checking", LP,
          "Histories of register (new reactor in each mode / existing reactor) / revoke / fire / despawn over trigger groups that share keys (broadcast + entity event + any-entity-event on one event type; insertion + mutation tables of one component, type-wide and entity-scoped; resource + entity-scoped), at top level (depth D) and from reactor bodies while a dispatch is in flight (budget N). Every fire must produce exactly one reaction command per live matching registration in the abstract table (none missing, none foreign) and the implementation's tables (hook snapshot) must equal the abstract table at every quiescent point.",
-         "Bounded (D<=4/N<=3 quick, D<=5/N<=4 thorough); bundles include (entity-scoped trigger, type-wide trigger) pairs; a `hist-world` series fires through the World-level API; an `ewr` series registers / removes through an entity world reactor (EntityCommands::add_world_reactor, EntityReactor::remove) next to ordinary registrations; two separate revokable registrations of one reactor for one trigger are not generated.", "DESIGN.md 5 C01, 11.2"),
+         "Bounded (D<=4/N<=3 quick, D<=5/N<=4 thorough); bundles include (entity-scoped trigger, type-wide trigger) pairs; a `hist-world` series fires through the World-level API; an `ewr` series registers / removes through an entity world reactor (EntityCommands::add_world_reactor, EntityReactor::remove) next to ordinary registrations; a `removals` group (polled triggers) reports the polled rules of C08 as well; the in-tree scripts despawn a trigger entity in the same batch as operations on it; two separate revokable registrations of one reactor for one trigger are not generated.", "DESIGN.md 5 C01, 11.2"),
  "C06": ("cobweb-mc", "model_checking", LP,
          "C01's histories with multi-trigger bundles (pair across kinds, pair of one kind, triple including a despawn trigger) and revocation at every position (top level, in-tree, twice, of a dead reactor); after a revoke the very next fire must not reach the revoked (reactor, trigger) and all other registrations must be unchanged (dispatch + table cross-check).",
-         "Bounded (D<=4/N<=3 quick, D<=5/N<=4 thorough); bundles include a despawn trigger on an entity the histories can despawn (revocation between a despawn and its detection); an `ewr` series revokes by removing triggers from an entity world reactor.", "DESIGN.md 5 C06"),
+         "Bounded (D<=4/N<=3 quick, D<=5/N<=4 thorough); bundles include a despawn trigger on an entity the histories can despawn (revocation between a despawn and its detection); an `ewr` series revokes by removing triggers from an entity world reactor; a `removals` group (type-wide and entity-scoped removal reactors sharing one tracker) reports the polled rules of C08 as well; the in-tree series end with a second top-level trigger and hold a reactor with two separately revokable registrations.", "DESIGN.md 5 C06"),
  "C07": ("cobweb-mc", "model_checking", LP,
          "Histories of registering new reactors (3 modes x 7 bundles incl. empty, despawn triggers, entity triggers possibly naming dead entities), revoke, fire, despawn of trigger entities, explicit Gc / Poll, fires from inside runs. Liveness of every reactor is sampled at every command marker and compared with an abstract reference count (live registrations + pending despawn reactions); after the first garbage collection following count 0 the reactor must be gone and its captured canary dropped; persistent reactors must always exist.",
          "Bounded (D<=4 quick, D<=6 thorough); several ref-counted registrations of one system command are documented as unsupported and not generated.", "DESIGN.md 5 C07"),
@@ -29,7 +29,7 @@ CHECKS = {
          "Every public operation naming a system, reactor or entity (run, system event, entity event, insert, mutate, trigger, remove, register existing/new reactor with entity and despawn triggers, revoke) combined with despawns of its target at every point the lazy-program enumeration can place them (before queuing, between queuing and applying, after scheduling, while postponed, during the target's own run), singly and in pairs up to the budget: no panic, nothing runs for a dead target, payloads released, other registrations intact (table cross-check).",
          "Bounded (N<=3 quick, N<=4 thorough).", "DESIGN.md 5 C18"),
  "C10": ("cobweb-mc+loom", "model_checking", "explicit-state BFS to a fixed point (sequential) + loom exhaustive interleavings of the real auto_despawn.rs (concurrent)",
-         "Sequential: every history of prepare / clone / drop / gc / manual despawn / reparent over 3 entities and <= 4 live clones is explored to the fixed point of the reachable (reference-model state, observed liveness, pending-signal count) set (about 25k states with the parametric burst operation (300 entities; thorough also 3000), depth 13), each transition re-executed on the real AutoDespawner / garbage_collect_entities in a fresh App and compared with a counter model (never despawned while a clone exists, despawned with descendants by the first gc after the last drop, exactly one signal per last drop, gc idempotent). Concurrent: loom explores all interleavings (complete DPOR for three 2-worker scenarios; preemption bound 6 for two larger ones in the thorough tier) of clone drops on worker threads against garbage collection on the main thread, on the real source file compiled against loom.",
+         "Sequential: every history of prepare / clone / drop / gc / manual despawn / reparent / leaving a cobweb system command on the world's command queue (it then runs in the middle of whichever operation flushes the world, possibly a collection) over 3 entities and <= 4 live clones is explored to the fixed point of the reachable (reference-model state, observed liveness, pending-signal count) set (about 25k states with the parametric burst operation (300 entities; thorough also 3000), depth 13), each transition re-executed on the real AutoDespawner / garbage_collect_entities in a fresh App and compared with a counter model (never despawned while a clone exists, despawned with descendants by the first gc after the last drop, exactly one signal per last drop, gc idempotent). Concurrent: loom explores all interleavings (complete DPOR for three 2-worker scenarios; preemption bound 6 for two larger ones in the thorough tier) of clone drops on worker threads against garbage collection on the main thread, on the real source file compiled against loom.",
          "loom models std::sync::Arc; crossbeam's channel is replaced by a linearizable FIFO on loom primitives; if auto_despawn.rs stops compiling stand-alone the loom leg is skipped (reported in the evidence), never turned into a verdict.", "DESIGN.md 5 C10"),
  "C16": ("cobweb-mc", "model_checking", "explicit-state BFS over histories of the real crate against a reference model",
          "All histories (depth 5 quick, 8 thorough) of add / remove-subset / remove-bundle-spanning-both-entities / fire / despawn / manual run over one WorldReactor and two EntityWorldReactors with two triggers each and two entities, plus a second WorldReactor registered with starting triggers before the plugin is added and a plain reactor added with App::add_reactor, a third with type-wide component triggers and a fourth with any_entity_event of the event type the first takes as a broadcast; a reference model predicts the exact multiset of runs, the local data each run exposes (as modified by earlier runs), presence of the local-data component on every entity after every step, and that the three reactor systems are never despawned or duplicated.",
@@ -39,13 +39,13 @@ CHECKS = {
          "Same-key recursion modelled as documented (inner state does not persist); keys that differ only by an interchangeable label (g after f, name n1 after n0, second spawned id after the first) are pruned by restricted growth.", "DESIGN.md 5 C17, 11.2"),
  "C02": ("cobweb-mc", "model_checking", LP,
          "Every program with at most N chosen operations over {Run, SysEvent, DespawnSys}x3 actors + Broadcast (preset listeners; plain, erring and exclusive systems; one or two trees) is executed on the real crate; the spec monitor requires for every command the runner reaches exactly one of run / postponed-while-busy / dropped-because-dead, exactly one run per obligation, and nothing pending when the flush returns.",
-         "Bounded (N<=4 quick, N<=6 thorough); a `plain3-L1-world` series issues the same programs through SystemCommand::apply / World::send_system_event / World::broadcast; a `despawn-rc` series has ref-counted despawn reactors whose reactions are postponed; hooks only observe; harness marker commands are plain closures.", "DESIGN.md 5 C02"),
+         "Bounded (N<=4 quick, N<=6 thorough); a `plain3-L1-world` series issues the same programs through SystemCommand::apply / World::send_system_event / World::broadcast; a `despawn-rc` series has ref-counted despawn reactors whose reactions are postponed; a `runs-only` series explores recursion shapes over three systems up to seven runs; hooks only observe; harness marker commands are plain closures.", "DESIGN.md 5 C02"),
  "C03": ("cobweb-mc", "model_checking", LP,
          "Kind-rich programs (2 actors registered for every trigger kind, type-wide and entity-scoped; 2 entities) enumerated exhaustively up to N operations; at the start of every run all 12 readers are sampled and must equal exactly the data of the obligation the run discharges (every assignment consistent with per-sender order is tracked for interchangeable postponed deliveries).",
          "Bounded (N<=3 quick, N<=5 thorough); series rich, tops, faults (listeners that die while events are in flight), variants (exclusive / erring reactors), rich-world (World-level API), excl-flush (exclusive reactor that flushes the world queue before reading: KNOWN-FINDING F6, exit 0); payloads identified by unique ids.", "DESIGN.md 5 C03, 11.4"),
  "C04": ("cobweb-mc", "model_checking", LP,
          "Same programs as C03 plus a probe actor with no registrations run at every script position, an exclusive reactor and an erring reactor; any reader returning data the run's cause does not carry is a violation, as is a second successful SystemEvent::take.",
-         "Bounded (N<=3 quick, N<=5 thorough); a `faults` series aborts deliveries (targets despawned between queuing and applying) and then runs a probe that reacts to nothing; a `deferred` series has reactors that queue through DeferredWorld::commands() (world queue), judged for reader visibility only.", "DESIGN.md 5 C04"),
+         "Bounded (N<=3 quick, N<=5 thorough); a `faults` series aborts deliveries (targets despawned between queuing and applying) and then runs a probe that reacts to nothing; a `once` series has one-off reactors as event readers; a `deferred` series has reactors that queue through DeferredWorld::commands() (world queue), judged for reader visibility only.", "DESIGN.md 5 C04"),
  "C05": ("cobweb-mc", "model_checking", LP,
          "Events with 0..3 listeners (entity-scoped + type-wide, taking and non-taking readers) and fault operations (despawn listener, despawn / recursive despawn of the target entity) placed by earlier listeners between scheduling and running; every payload logs its own Drop; the monitor requires exactly one drop, not before its last live reader finished, immediately when nobody listens, before the tree ends, and no data entity at quiescence.",
          "Bounded (N<=4 quick, N<=6 thorough); series faults, faults-world, single, variants, mixed (component / resource reactions nested between the readers of an event), excl-flush (KNOWN-FINDING F6b, exit 0); payload Drop is observed through the payload's own Drop impl.", "DESIGN.md 5 C05, 11.4"),
